@@ -81,6 +81,15 @@ Lemma tie_TagDone : body_connState_TagDone = ["cs.tagMu.Lock()"; "defer cs.tagMu
 Lemma tie_handleRequests : body_connState_handleRequests = ["for { if !cs.handleRequest() { return } }"]. Proof. reflexivity. Qed.
 Lemma tie_send_writes : send_writes = ["vecs.WriteTo(w)"]. Proof. reflexivity. Qed.
 
+(** the handlers start no goroutine of their own: every backend call made on behalf of a request
+    happens inside its handle (what C14's "stopped executing" rests on); the only go statements
+    are the receiver hand-off and the accept loop *)
+Lemma tie_go_sites : go_sites = ["connState.handleRequest"; "Server.ServeContext"; "Server.ServeContext"]. Proof. reflexivity. Qed.
+
+(** the request loop touches only its own connection's state (plus the logger, the message
+    registry and the buffer pool): connections share nothing here (Loop/Multi.v) *)
+Lemma tie_loop_state : loop_state = ["cs.ClearTag"; "cs.StartTag"; "cs.TagDone"; "cs.handle"; "cs.handleRequest"; "cs.handleRequests"; "cs.messageSize"; "cs.pendingWg"; "cs.r"; "cs.recvIdle"; "cs.recvMu"; "cs.recvShutdown"; "cs.sendMu"; "cs.server.log"; "cs.t"; "cs.tagMu"; "cs.tags"; "var dataPool"; "var msgDotLRegistry"]. Proof. reflexivity. Qed.
+
 (** the whole table, as the model was written against it *)
 Definition expected_events : list (string * list string * list string) := [
   ("recvMu.Lock", [], []);
